@@ -19,3 +19,8 @@ def obligations(tier):
                f"each clause owned by {m} (symbolic index), output_mode={m}: documented keys at top level with catalogued values, common fields unchanged") for m in MODES]
     obs += lex_obs("C11", "c_kw", ["after_columns", "after_clause"], tier, "lex")
     return obs
+
+
+def solver_queries(tier, scratch):
+    from vf import lr_lemmas
+    return lr_lemmas.run_lemmas("C11", tier, scratch)
